@@ -264,7 +264,43 @@ def artefact_case(case):
     return {"ok": True, "nt": bool(nt), "ops": len(outs), "out": kind}
 
 
-FUNCS = {"operators": operator_case, "text": text_case, "artefacts": artefact_case}
+def near_case(case):
+    """{'base': c, 'ops': {q:p}}: a HISTORY of serialisations in one process of terms on the same Pauli string whose coefficients are close together
+    (inside the library's equality tolerance / hash bucket, but more than 1e-8 apart): each one must come back with its OWN coefficient"""
+    from orquestra.quantum import operators as O
+    from orquestra.quantum.operators import PauliTerm, PauliSum
+    base = case["base"]
+    coefs = [base, base * (1 + 3e-7), base * (1 - 4e-7), base + 2.5e-7, complex(base, 3e-7), complex(base, 6e-7), base * (1 + 3e-7)]
+    ops = {int(q): p for q, p in case["ops"].items()}
+    k = 0
+    wd = scratch()
+    try:
+        for i, c in enumerate(coefs):
+            t = PauliTerm(dict(ops), c)
+            for name, got in (("convert", O.convert_dict_to_op(json.loads(json.dumps(O.convert_op_to_dict(t))))),
+                              ("convert sum", O.convert_dict_to_op(O.convert_op_to_dict(PauliSum([t, PauliTerm({9: "Z"}, 1.0)])))),):
+                k += 1
+                m = cmap(got)
+                key = tuple(sorted(ops.items()))
+                if abs(m.get(key, 0) - complex(c)) > 1e-12:
+                    return {"ok": False, "msg": "serialisation %d in this process (%s): coefficient %r came back as %r" % (i, name, c, m.get(key)), "sig": "near:coefficient", "ops": k}
+            p = os.path.join(wd, "o%d.json" % i)
+            O.save_operator(t, p)
+            if abs(cmap(O.load_operator(p)).get(tuple(sorted(ops.items())), 0) - complex(c)) > 1e-12:
+                return {"ok": False, "msg": "save/load %d in this process: coefficient %r changed" % (i, c), "sig": "near:save", "ops": k}
+        sset = [PauliSum([PauliTerm(dict(ops), c)]) for c in coefs]
+        q = os.path.join(wd, "set.json")
+        O.save_operator_set(sset, q)
+        back = O.load_operator_set(q)
+        for c, b in zip(coefs, back):
+            if abs(cmap(b).get(tuple(sorted(ops.items())), 0) - complex(c)) > 1e-12:
+                return {"ok": False, "msg": "operator set with near-equal coefficients: %r came back as %r" % (c, cmap(b)), "sig": "near:set", "ops": k}
+    finally:
+        shutil.rmtree(wd, ignore_errors=True)
+    return {"ok": True, "nt": True, "ops": k, "out": "near"}
+
+
+FUNCS = {"near_coefficients": near_case, "operators": operator_case, "text": text_case, "artefacts": artefact_case}
 
 
 def strings(maxf):
@@ -316,4 +352,6 @@ def run(run):
     secs = [Section("operators", [{"op": o} for o in ops], operator_case, horizon=120, desc="dict/JSON (stdlib + rapidjson), save/load (path + open file), operator sets"),
             Section("text", [{"op": o} for o in ops], text_case, horizon=120, desc="str(op) parsed back by PauliTerm / PauliSum"),
             Section("artefacts", artefacts(), artefact_case, horizon=120, desc="every persisted artefact through its own save/load (path, open file, StringIO)")]
+    secs.append(Section("near_coefficients", [{"base": b, "ops": o} for b in (0.5000001, 2.0, -1.25, 1e-3, 123456.5) for o in ({"0": "Z", "12": "X"}, {"7": "Y"}, {})], near_case,
+                        desc="histories of serialisations of terms whose coefficients share a hash bucket / are np.allclose but differ by > 1e-8"))
     run.run_sections(secs)
